@@ -167,6 +167,48 @@ def gen_history(rng, cfg):
 
     nops = rng.randrange(50, 300)
     seedctr = rng.randrange(1, 1 << 20)
+    if kind == "e" and bs == 1024 and cluster == bs and not small and rng.random() < 0.15:
+        # motif "leaf edges": more extents than one 84-entry leaf holds - single written blocks,
+        # most of them followed (logically and physically) by a 2-block preallocation, physical
+        # contiguity between the groups broken by a second file - and then writes into the first
+        # block of the preallocations, which merge it into the extent in front (possibly the last
+        # entry of the previous leaf)
+        A, B = 0, 1
+        ngrp = rng.randrange(95, 140)
+        emit("fopen %d INO%d 1" % (A, A), ("r fopen 0", None))
+        emit("trunc %d %d" % (A, (3 * ngrp + 5) * bs), None)
+        emit("fclose %d" % A, ("fclose", A))
+        files[A].size = (3 * ngrp + 5) * bs
+        pre = []
+        for i in range(ngrp):
+            seedctr += 1
+            emit("fopen %d INO%d 1" % (A, A), ("r fopen 0", None))
+            emit("seek %d %d 0" % (A, 3 * i * bs), None)
+            emit("write %d %d %d" % (A, bs, seedctr), None)
+            emit("fclose %d" % A, ("fclose", A))
+            if rng.random() < 0.78:
+                emit("falloc INO%d 4 %d 2" % (A, 3 * i + 1), None)
+                pre.append(3 * i + 1)
+            seedctr += 1
+            emit("fopen %d INO%d 1" % (B, B), ("r fopen 0", None))
+            emit("seek %d %d 0" % (B, i * bs), None)
+            emit("write %d %d %d" % (B, bs, seedctr), None)
+            emit("fclose %d" % B, ("fclose", B))
+        files[B].size = ngrp * bs
+        rng.shuffle(pre)
+        emit("fopen %d INO%d 1" % (A, A), ("r fopen 0", None))
+        for lb in pre[:int(len(pre) * rng.choice([0.5, 0.9, 1.0]))]:
+            seedctr += 1
+            emit("seek %d %d 0" % (A, lb * bs), None)
+            emit("write %d %d %d" % (A, rng.choice([bs, bs, bs // 2, 7]), seedctr), None)
+        emit("seek %d 0 0" % A, None)
+        for _k in range((3 * ngrp + 5) // 40 + 1):
+            emit("read %d %d" % (A, 40 * bs), None)
+        emit("fclose %d" % A, ("fclose", A))
+        stats["ops"]["leaf-edges"] = 1
+        stats["mapping_changing"] += len(pre)
+        stats["unaligned_overwrite"] += 1
+        nops = rng.randrange(20, 80)
     for _ in range(nops):
         live = [k for k in range(nfiles) if not files[k].dead]
         if not live:
